@@ -119,4 +119,89 @@ theorem parse_source_budgets (pf : Bytes → Option UInt64) (input : Bytes) :
   · unfold exprFuel Parser.fuelFor sourceFuel; omega
   · unfold parseSource; rw [hl]; rfl
 
+/-! ## The standalone expression entry, `parse.Expr(str)` -/
+
+/-- `parseExprEntry` with the budget made a parameter -/
+def parseExprFuel (pf : Bytes → Option UInt64) (fuel : Nat) (items : List Item) : Except PErr Expr :=
+  match (Parser.parseExpr pf fuel 0).run (Parser.initState items) with
+  | Except.ok (e, _) => Except.ok e
+  | Except.error err => Except.error err
+
+theorem parseExprEntry_eq (pf : Bytes → Option UInt64) (items : List Item) :
+    parseExprEntry pf items = parseExprFuel pf (Parser.fuelFor items.length) items := rfl
+
+/-- on ANY token list a budget of `8·|items| + 10` steps — or more — suffices for the expression parser -/
+theorem parse_expr_total_fuel (pf : Bytes → Option UInt64) (fuel : Nat) (items : List Item)
+    (hfuel : 8 * items.length + 10 ≤ fuel) : parseExprFuel pf fuel items ≠ .error .fuelOut := by
+  have hmu := mu_init items
+  have hi : Inv ⟨False, False⟩ (fun _ => True) (Parser.initState items) :=
+    (inv_init (fun _ => True) items trivial (fun _ _ => trivial) (fun h => absurd h id) (fun h => absurd h id)).crude (fun h => h)
+  have h := (Lemmas.ParserSafe.exprSpecs_all pf True ⟨False, False⟩ (fun _ => True) trivial (fun _ _ => Or.inl trivial) fuel).parseExpr
+    0 (Parser.initState items) hi (by omega)
+  unfold PSafe at h
+  unfold parseExprFuel
+  simp only [StateT.run]
+  intro hc
+  split at hc
+  · exact absurd hc (by simp)
+  · rename_i e he
+    rw [he] at h
+    simp only [Except.error.injEq] at hc
+    subst hc
+    exact h
+
+/-- `parse.Expr(str)`: the lexer model in expression mode composed with the expression parser and
+    the drain of `Expr` / `tree.recover` (`Parser.exprEntry`) -/
+def parseExprSource (pf : Bytes → Option UInt64) (input : Bytes) : EntryOutcome :=
+  match Lex.lexAll input true with
+  | .items is => exprEntry pf is
+  | .panic => { result := .error .panic, drained := false }
+  | .fuelOut => { result := .error .fuelOut, drained := false }
+
+/-- … with the parser's budget a parameter -/
+def parseExprSourceFuel (pf : Bytes → Option UInt64) (F : Nat) (input : Bytes) : Except PErr Expr :=
+  match Lex.lexAll input true with
+  | .items is => parseExprFuel pf F is
+  | .panic => .error .panic
+  | .fuelOut => .error .fuelOut
+
+theorem exprEntry_result (pf : Bytes → Option UInt64) (items : List Item) :
+    (exprEntry pf items).result = parseExprEntry pf items := by
+  unfold exprEntry parseExprEntry
+  split <;> simp_all
+
+/-- END TO END OVER BYTES, standalone expression: for every byte string, valid or not, `parse.Expr`
+    ends within `7n + 8` state-function calls of the lexer and a parser budget of `16n + 72`; the
+    budget `parse.Expr`'s model hands out is at most that, it never runs out of it, and unless the
+    parser panics the lexer goroutine is drained -/
+theorem parse_expr_linear (pf : Bytes → Option UInt64) (input : Bytes) :
+    Lex.lexAll input true ≠ .fuelOut ∧
+    parseExprSourceFuel pf (sourceFuel input.length) input ≠ .error .fuelOut ∧
+    ∃ is, Lex.lexAll input true = .items is ∧ is.length ≤ 2 * input.length + 1 ∧
+      Parser.fuelFor is.length ≤ sourceFuel input.length ∧
+      (parseExprSource pf input).result = parseExprFuel pf (Parser.fuelFor is.length) is ∧
+      (parseExprSource pf input).result ≠ .error .fuelOut ∧
+      ((parseExprSource pf input).result ≠ .error .panic → (parseExprSource pf input).drained = true) := by
+  obtain ⟨is, hl, _⟩ := lex_items input true
+  have hle := lexAll_items_le input true is hl
+  have htot : parseExprFuel pf (Parser.fuelFor is.length) is ≠ .error .fuelOut :=
+    parse_expr_total_fuel pf _ is (by unfold Parser.fuelFor; omega)
+  have hres : (parseExprSource pf input).result = parseExprFuel pf (Parser.fuelFor is.length) is := by
+    unfold parseExprSource; rw [hl]; exact exprEntry_result pf is
+  refine ⟨lex_total input true, ?_, is, hl, hle, by unfold Parser.fuelFor sourceFuel; omega, hres, by rw [hres]; exact htot, ?_⟩
+  · unfold parseExprSourceFuel
+    rw [hl]
+    exact parse_expr_total_fuel pf _ is (by unfold sourceFuel; omega)
+  · intro hnp
+    have hd : (parseExprSource pf input).drained = (exprEntry pf is).drained := by
+      unfold parseExprSource; rw [hl]
+    have hr : (parseExprSource pf input).result = (exprEntry pf is).result := by
+      unfold parseExprSource; rw [hl]
+    rw [hd]
+    rw [hr] at hnp
+    have hnf : (exprEntry pf is).result ≠ .error .fuelOut := by rw [exprEntry_result]; exact htot
+    revert hnp hnf
+    unfold exprEntry
+    split <;> simp
+
 end SoyVerif.Props.C05
